@@ -256,6 +256,63 @@ ensures
         r is Ok,
 @*/
 
+
+// ---------------------------------------------------------------- "decoding rejects trailing bytes": the one decode entry point
+// wincode (external crate): what a byte string decodes to from its front - the value and the number of bytes consumed - is
+// uninterpreted; the DOCUMENTED difference between its two entry points is TRUSTED: `deserialize_exact` also demands that every
+// byte was consumed, `deserialize` does not.
+pub uninterp spec fn spec_decode_front<T>(bytes: Seq<u8>) -> Option<(T, nat)>;
+pub struct NetworkMessageConfig { pub _p: () }
+impl NetworkMessageConfig { pub fn new() -> (r: Self) { NetworkMessageConfig { _p: () } } }
+pub type ReadResult<T> = Result<T, wincode::ReadError>;
+#[verifier::external_body]
+pub fn wincode_deserialize_exact<T>(bytes: &[u8], cfg: NetworkMessageConfig) -> (r: ReadResult<T>)
+    ensures
+        r matches Ok(v) ==> spec_decode_front::<T>(bytes@) == Some((v, bytes@.len() as nat)),
+        r is Err ==> !(spec_decode_front::<T>(bytes@) matches Some(p) && p.1 == bytes@.len()),
+{ unimplemented!() }
+#[verifier::external_body]
+pub fn wincode_deserialize<T>(bytes: &[u8], cfg: NetworkMessageConfig) -> (r: ReadResult<T>)
+    ensures
+        r matches Ok(v) ==> (spec_decode_front::<T>(bytes@) matches Some(p) && p.0 == v),
+        r is Err ==> spec_decode_front::<T>(bytes@) is None,
+{ unimplemented!() }
+// the message a datagram carries: it decodes from the front AND nothing is left over
+pub open spec fn spec_datagram<T>(bytes: Seq<u8>) -> Option<T> {
+    match spec_decode_front::<T>(bytes) {
+        Some(p) => if p.1 == bytes.len() { Some(p.0) } else { None },
+        None => None,
+    }
+}
+/*@ extract src/network.rs :: fn deserialize
+props C19 C10
+ret r
+sig `<'de, T>` => `<T>`
+sig `&'de [u8]` => `&[u8]`
+sig `where T: SchemaRead<'de, NetworkMessageConfig, Dst = T>,` => ``
+rewrite?[R8] `wincode::config::deserialize_exact(` => `wincode_deserialize_exact(`
+rewrite?[R8] `wincode::config::deserialize(` => `wincode_deserialize(`
+ensures
+        // [C19.trailing_bytes_are_rejected C10.trailing_bytes_are_rejected] a byte string is a message only if it decodes with nothing left over
+        r matches Ok(v) ==> spec_datagram::<T>(bytes@) == Some(v),
+        r is Err ==> spec_datagram::<T>(bytes@) is None,
+@*/
+// UdpNetwork<S, R> (src/network/udp.rs): only the associated function `decode` is used here
+pub struct UdpNetwork<S, R> { pub _s: std::marker::PhantomData<S>, pub _r: std::marker::PhantomData<R> }
+impl<S, R> UdpNetwork<S, R> {
+/*@ extract src/network/udp.rs :: impl UdpNetwork<S, R>/fn decode
+props C19 C10
+ret r
+rewrite?[R8] `crate::network::deserialize(` => `deserialize(`
+rewrite?[R8] `wincode::config::deserialize_exact(` => `wincode_deserialize_exact(`
+rewrite?[R8] `wincode::config::deserialize(` => `wincode_deserialize(`
+ensures
+        // [C19.trailing_bytes_are_rejected_at_the_socket C10.trailing_bytes_are_rejected_at_the_socket] what the UDP interface hands
+        // to a node is a message exactly when the whole datagram is one
+        r == spec_datagram::<R>(bytes@),
+@*/
+}
+
 } // mod code
 
 // [C19.honest_bitmask_always_decodes]  Every mask an honest node encodes - n bits for a validator set of
